@@ -609,6 +609,56 @@ theorem crash_recovery_same_state_refuted : ¬ crash_recovery_same_state_stateme
   revert this
   decide
 
+-- ------------------------------------------------------------------ the restart itself can fail (known finding)
+
+-- A chain 1 → 2 → 3 → 4 (heights 0..3); block 2 creates an output of u0 frozen until height 3. At ledger height 3 the
+-- spender 40 of that output is admitted. The miner's truncation (`Walk(2)`, then `Truncate(2)`) re-admits 40 while the
+-- ledger is still at height 3 and only then lowers it to height 1. The node packs 40 into its next block 5 (height 2):
+-- `ConfirmBlock(5)`, `PlayForMiner(5)` (which verifies nothing).
+private def fEnv : Env := {
+  txs := [
+    (0, ⟨0, true, [], [⟨"u0", 5, 0⟩], [], []⟩),
+    (10, ⟨10, true, [], [⟨"m", 1, 0⟩], [], []⟩),
+    (11, ⟨11, false, [⟨0, 0, "u0", 5, 0, false⟩], [⟨"u0", 3, 3⟩, ⟨"u0", 2, 0⟩], [], []⟩),
+    (20, ⟨20, true, [], [⟨"m", 1, 0⟩], [], []⟩),
+    (30, ⟨30, true, [], [⟨"m", 1, 0⟩], [], []⟩),
+    (40, ⟨40, false, [⟨11, 0, "u0", 3, 3, false⟩], [⟨"u1", 3, 0⟩], [], []⟩),
+    (50, ⟨50, true, [], [⟨"m", 1, 0⟩], [], []⟩)],
+  blocks := [(1, ⟨1, none, 0, [0], "m"⟩), (2, ⟨2, some 1, 1, [10, 11], "m"⟩), (3, ⟨3, some 2, 2, [20], "m"⟩),
+    (4, ⟨4, some 3, 3, [30], "m"⟩), (5, ⟨5, some 2, 2, [50, 40], "m"⟩)] }
+private def fN : Node := { l := XV.Ledger.genesis 1 [0], s := canon fEnv {} 1 }
+private def fOps : List Op := [.confirm 2, .play 2, .confirm 3, .play 3, .confirm 4, .play 4, .submit 40,
+  .walk 2 false, .truncate 2, .confirm 5, .playMiner 5]
+
+/-- the full statement "whatever batch was the last one written, the restart succeeds" for histories all of whose
+operations succeeded -/
+def crash_restart_succeeds_statement : Prop :=
+  ∀ (e : Env) (n : Node) (ops : List Op), (run e n ops).s.pointer = (run e n ops).l.tip →
+    ∀ x ∈ crashStates e n ops, (recover e x).2 = true
+
+/-- **it is false of the model and of the code** (known finding
+`crash-sync-failed:block-spends-output-frozen-above-ledger-height`, replay
+`corpus/C06/frozen-spend-kept-across-truncation.ops`): in the history `fOps` every operation succeeds — the uninterrupted
+run ends with ledger and state at block 5 — but the node that dies between `ConfirmBlock(5)` and `PlayForMiner(5)` holds
+the state of block 2 with 40 pending under a ledger of height 2; its restart walk rolls 40 back and cannot apply block 5:
+the output 40 spends is frozen until height 3. The frozen-height rule reads the ledger's CURRENT height, which the
+truncation lowered after the pending transactions had been re-admitted. -/
+theorem crash_restart_succeeds_refuted : ¬ crash_restart_succeeds_statement := by
+  intro h
+  have := h fEnv fN fOps (by decide)
+  revert this
+  decide
+
+-- the uninterrupted run: every operation took effect (pool [40] after the truncation, block 5 applied, pool empty)
+example : (run fEnv fN (fOps.take 9)).s.pool = [40] ∧ (run fEnv fN (fOps.take 9)).l.trunkHeight = 1 ∧
+    (run fEnv fN fOps).s.pointer = 5 ∧ (run fEnv fN fOps).l.tip = 5 ∧ (run fEnv fN fOps).s.pool = [] := by decide
+-- the crash state that fails is the node after the first ten operations (between `ConfirmBlock(5)` and `PlayForMiner(5)`)
+example : (recover fEnv (run fEnv fN (fOps.take 10))).2 = false ∧ (run fEnv fN (fOps.take 10)).s.pointer = 2 ∧
+    (run fEnv fN (fOps.take 10)).l.tip = 5 := by decide
+-- without the truncation in between (ledger still at height 3) the very same crash point restarts fine
+example : (recover fEnv (run fEnv fN [.confirm 2, .play 2, .confirm 3, .play 3, .confirm 4, .play 4, .submit 40,
+    .walk 2 false])).2 = true := by decide
+
 /-- **(c), every crash state of every history: a successful restart lands on the canonical state of the ledger
 tip.** The recovered state points at the ledger tip and its tables are those of the canonical state of the tip (the
 replay of the tip's chain from the base state) with the recovered pool applied; the ledger is untouched. The same
